@@ -28,6 +28,7 @@ class WireStack:
         self.protocol = None
         self.ezsp = None
         self.silent = False  # NCP stops reacting at all
+        self.naks_before_silence = 0
         self.connects = 0
 
     # -- NCP side -----------------------------------------------------------------------------
@@ -37,6 +38,10 @@ class WireStack:
 
     def _h2n(self, chunk):
         if self.silent:
+            if self.naks_before_silence > 0 and any(fr is not None and fr.kind == "DATA" for _, fr, _ in R.split_wire(bytes(chunk))[0]):
+                # a dying NCP: it still rejects the next DATA frame(s) with a NAK, then says nothing more
+                self.naks_before_silence -= 1
+                self.line.send("n2h", R.encode_nak(self.ash.ack_rx))
             return
         self.ash.feed(chunk)
 
